@@ -54,6 +54,10 @@ CHECKS.update({
                 technique="runtime monitoring: every template is sealed and run through the node's own full verification on a dropped store transaction; a fraction is mined on the node and on a second node",
                 text="Templates requested after every pool/chain operation are converted exactly as the miner does, sealed, and run through HeaderVerifier, BlockVerifier, NonContextualBlockTxsVerifier and ContextualBlockVerifier (non-committing) on the node itself; size/cycle limits, parents-first order and in-window proposals are checked structurally; ~45% are mined: the node and a second node must accept them.",
                 note=POOL_NOTE),
+    "C03": dict(engine="rules", category="exploration", design="4/C03",
+                technique="runtime monitoring: single-rule mutants and boundary-valid variants of valid candidate blocks through the real pipeline (HeaderVerifier + chain service) with full-state before/after comparison; RefChain facts for window / median / uncle eligibility",
+                text="On tips of random block trees (epoch heads/tails, windows (2,10) (1,3) (2,4) (1,1), lowered proposal limit, a real-PoW context) a valid candidate is drafted on the builder node; ~57 single-rule violations (number, epoch fraction, timestamp vs past median / future bound, target, PoW, merkle/proposal/extra hashes, cellbase shape, reward amount/lock/presence, each dao component +-1, duplicates, proposal limit, extension shapes and chain root, uncle count/duplicate/epoch/target/descent/double inclusion/proposals hash, commit not proposed / too recent / expired) must be rejected by the header check or reported Err by the chain service with the full store dump and tip unchanged; boundary-valid variants (median+1, now+15s, extension 32/96 bytes, limits exactly met, commit exactly at w_close / w_far) must be attached. Side branches: an invalid block parked on a lighter branch plus re-parented descendants making it heavier must be refused as a whole (submitter gets Err, canonical state unchanged); the valid twin branch must then be attached.",
+                note="Trusted: mutants break exactly one rule by construction; dao/reward of the valid candidate come from production calculators (C06). Block version is not a consensus rule (versionbits) and is not mutated."),
     "C08": dict(engine="crash", category="fault_enumeration", design="4/C08",
                 technique="runtime monitoring under injected faults: process death at every durable write (hook H2) in child processes, recovery through the production open path, dumps judged by RefChain",
                 text="For generated histories (forks, invalid blocks, orphan and duplicate arrival) a child process importing the history is killed immediately before / after its k-th durable write (transaction commit or batch write), for every k in the thorough tier (every 5th in quick) plus sampled second crashes during recovery; a recovery child reopens the database through SharedBuilder::new (migration check, InitLoadUnverified), dumps, redelivers everything and dumps again. Oracles: reopen succeeds, the recovered state equals a replay of the reported tip's chain (all C02 columns), the tip is a delivered valid block, no stored block with a judged parent is left unverified, after redelivery the tip is in the arg-max set and equals the uncrashed baseline when unique.",
@@ -97,6 +101,8 @@ engines = [
      "kind_free_text": "real nodes + builder node + RefChain model; hooks H1/H3"},
     {"name": "arith", "path": "harness/varith", "serves_properties": ["C07"],
      "kind_free_text": "API driver + oracles/arith.py exact oracle; harness-miri/arith"},
+    {"name": "rules", "path": "harness/vmon/src/engines/rules.rs", "serves_properties": ["C03"],
+     "kind_free_text": "mutators over drafted candidate blocks; real pipeline on a synchronised node"},
     {"name": "crash", "path": "harness/vmon/src/engines/crash.rs", "serves_properties": ["C08"],
      "kind_free_text": "parent + crash/recovery child processes; hook H2 (ckb-db durable write counter / abort)"},
     {"name": "freeze", "path": "harness/vmon/src/engines/freeze.rs", "serves_properties": ["C10"],
